@@ -358,28 +358,20 @@ theorem getWord_ok (stream : List W32) (i : Nat) (h : i / 32 + 1 < stream.length
 theorem genMac_ok (m : Bytes) (stream : List W32) (hl : stream.length = (m.length * 8 + 31) / 32 + 2) :
     ∃ mac, genMac m stream (m.length * 8) = .ok mac := by
   unfold genMac
-  simp only []
-  have hstep : ∀ (k : Nat) (t : W32), 0 ≤ k → k < 0 + m.length * 8 →
-      ∃ a', (if k / 8 < m.length then
-        if m.getD (k / 8) 0 &&& (1 <<< UInt8.ofNat (7 - k % 8)) != 0 then
-          match getWord stream k with
-          | .ok w => .ok (t ^^^ w)
-          | .err e => .err e
-          | .panic => .panic
-        else .ok t
-      else (.panic : Outcome W32)) = .ok a' := by
+  have hstep : ∀ (k : Nat) (t : W32), 0 ≤ k → k < 0 + m.length * 8 → ∃ a', genMacStep m stream k t = .ok a' := by
     intro k t _ hk
+    unfold genMacStep
     rw [if_pos (by omega)]
     split
     · obtain ⟨w, hw⟩ := getWord_ok stream k (Or.inl (by omega))
       rw [hw]; exact ⟨_, rfl⟩
     · exact ⟨_, rfl⟩
+  obtain ⟨t, ht⟩ := forRange_ok (genMacStep m stream) (m.length * 8) 0 0#32 hstep
   obtain ⟨a, ha⟩ := getWord_ok stream (m.length * 8) (Or.inl (by omega))
   obtain ⟨b, hb⟩ := getWord_ok stream (32 * (stream.length - 1)) (Or.inr ⟨by omega, by omega⟩)
-  split
-  · rw [ha, hb]; exact ⟨_, rfl⟩
-  · next e hev => exact absurd hev ((forRange_ok' _ _ _ _ hstep).2 e)
-  · next hev => exact absurd hev (forRange_ok' _ _ _ _ hstep).1
+  rw [ht]
+  simp only [genMacFin, ha, hb]
+  exact ⟨_, rfl⟩
 
 theorem nia3_no_panic (ik : Bytes) (count : W32) (bearer direction : UInt8) (msg : Bytes) :
     ∃ mac, NIA3 ik count bearer direction msg (msg.length * 8) = .ok mac := by
